@@ -182,3 +182,109 @@ def hopByHopFixed : List Str :=
 def statusTokens : List Str := [str% "HIT", str% "MISS", str% "STALE", str% "REVALIDATED", str% "BYPASS"]
 
 end Httpcache.Spec
+
+namespace Httpcache.Spec
+open Httpcache
+
+/-! ### URI equivalence (RFC 3986 §6.2.2–6.2.3) on the components of an absolute http(s) URI whose
+    dot segments were already removed -/
+
+def isUnreservedASCII (c : Char) : Bool :=
+  ('a' ≤ c && c ≤ 'z') || ('A' ≤ c && c ≤ 'Z') || ('0' ≤ c && c ≤ '9') || c = '-' || c = '.' || c = '_' || c = '~'
+
+def isHex (c : Char) : Bool := ('0' ≤ c && c ≤ '9') || ('a' ≤ c && c ≤ 'f') || ('A' ≤ c && c ≤ 'F')
+def hexValue (c : Char) : Nat :=
+  if '0' ≤ c && c ≤ '9' then c.toNat - 48 else if 'a' ≤ c && c ≤ 'f' then c.toNat - 87 else c.toNat - 55
+def hexUpper (n : Nat) : Char := if n < 10 then Char.ofNat (48 + n) else Char.ofNat (55 + n)
+
+/-- percent-encoding normal form: escapes of unreserved ASCII decoded, all other escapes upper-case -/
+def pctNorm : Str → Str
+  | '%' :: a :: b :: r =>
+    if isHex a && isHex b then
+      let v := hexValue a * 16 + hexValue b
+      if isUnreservedASCII (Char.ofNat v) then Char.ofNat v :: pctNorm r
+      else '%' :: hexUpper (v / 16) :: hexUpper (v % 16) :: pctNorm r
+    else '%' :: pctNorm (a :: b :: r)
+  | c :: r => c :: pctNorm r
+  | [] => []
+
+def schemeDefaultPort (scheme : Str) : Str :=
+  if scheme = (str% "http") then str% "80" else if scheme = (str% "https") then str% "443" else []
+
+/-- (host, port) of an authority without userinfo; an IP literal keeps its brackets -/
+def splitAuthority (hostport : Str) : Str × Str :=
+  let rev := hostport.reverse
+  let digits := rev.takeWhile isDigit
+  match rev.dropWhile isDigit with
+  | ':' :: hostRev => (hostRev.reverse, digits.reverse)
+  | _ => (hostport, [])
+
+/-- normal form of (scheme, authority, path, query); fragment and userinfo are not part of it -/
+def urlNorm (scheme host path query : Str) : Str :=
+  let s := lowerASCII scheme
+  let (h, p) := splitAuthority host
+  let p := if p = schemeDefaultPort s then [] else p
+  let auth := if p.isEmpty then lowerASCII h else lowerASCII h ++ [':'] ++ p
+  let path := if path.isEmpty then ['/'] else pctNorm path
+  s ++ (str% "://") ++ auth ++ path ++ (if query.isEmpty then [] else '?' :: pctNorm query)
+
+/-- same origin: scheme, host and effective port -/
+def sameOrigin (s1 h1 s2 h2 : Str) : Bool :=
+  let (a, p) := splitAuthority h1
+  let (b, q) := splitAuthority h2
+  let p := if p.isEmpty then schemeDefaultPort (lowerASCII s1) else p
+  let q := if q.isEmpty then schemeDefaultPort (lowerASCII s2) else q
+  lowerASCII s1 = lowerASCII s2 && lowerASCII a = lowerASCII b && p = q
+
+/-- methods registered as safe (IANA HTTP Method Registry) -/
+def ianaSafe : List Str := [str% "GET", str% "HEAD", str% "OPTIONS", str% "TRACE", str% "PROPFIND", str% "REPORT",
+  str% "SEARCH", str% "PRI", str% "QUERY"]
+
+/-! ### selecting header fields (RFC 9111 §4.1) -/
+
+/-- the combined value of all field lines of a request header (RFC 9110 §5.3) -/
+def combined (h : Header) (name : Str) : Option Str :=
+  match Header.values h name with
+  | [] => none
+  | vs => some (joinWith [',', ' '] vs)
+
+def insertSorted (x : Str) : List Str → List Str
+  | [] => [x]
+  | y :: ys => if strLe x y then x :: y :: ys else y :: insertSorted x ys
+
+def sortStrs (l : List Str) : List Str := l.foldr insertSorted []
+
+def trimWS (s : Str) : Str :=
+  let ws := fun (c : Char) => c = ' ' || c = '\t' || c = '\n' || c = '\r' || c.toNat = 11 || c.toNat = 12
+  ((s.dropWhile ws).reverse.dropWhile ws).reverse
+
+/-- the equivalence class representative of a selecting value, by the documented class of its
+    field (tables regenerated from internal/normalization.go): list fields up to member order and
+    OWS, case-insensitive fields up to ASCII case, date fields up to surrounding white space, the
+    Authorization scheme up to case; everything else byte for byte. absent ≡ empty. -/
+def selCanon (orderInsensitive caseInsensitive timeInsensitive : List String) (field : Str) (v : Option Str) : Str :=
+  match v with
+  | none => []
+  | some v =>
+    if v.isEmpty then []
+    else if (orderInsensitive.map String.toList).contains field then
+      joinWith [','] (sortStrs (((splitList v false []).map trimOWS).filter (!·.isEmpty)))
+    else if (caseInsensitive.map String.toList).contains field then lowerASCII v
+    else if (timeInsensitive.map String.toList).contains field then trimWS v
+    else if field = (str% "Authorization") then
+      match cutAt ' ' v with
+      | some (a, b) => lowerASCII a ++ [' '] ++ b
+      | none => v
+    else v
+
+/-- 304 freshening (RFC 9111 §4.3.4 / §3.2): every field of the 304 except hop-by-hop fields,
+    the fields its Connection names and Content-Length replaces the stored field; a stored Age is
+    dropped (the age restarts from the 304) -/
+def merge304 (canon : Str → Str) (stored new : Header) : Header :=
+  let named := ((splitList (Header.get new sConnection) false []).map trimOWS).filter (!·.isEmpty) |>.map canon
+  let skip := sContentLength :: (hopByHopFixed ++ named)
+  let base := Header.del stored sAge
+  (Header.names new).foldl (fun acc n =>
+    if skip.contains n then acc else Header.setValues acc n (Header.values new n)) base
+
+end Httpcache.Spec
